@@ -43,6 +43,7 @@ pub fn tramp_request(inv: &Inv, id: u64, amount_msat: u64, total: u64, expiry: u
         raw_payload_hex: None,
         label: RefLabel::Continue,
         gate: Gate::None,
+        hash_hex_override: None,
     };
     request_json(&spec, height)
 }
@@ -990,9 +991,13 @@ pub fn c20_e2e(bin: &str, seed: u64, sessions: u64, long_sessions: u64) -> E2eRe
                         continue;
                     }
                 };
-                // a sequence of notifications: rising, repeated, stale, zero
+                // a sequence of notifications: rising, repeated, stale, zero. Every third session
+                // sends a burst of several hundred in one write: the real binary handles them on
+                // a multi-threaded runtime, so their handlers genuinely race on the height.
                 let mut told_max = h0;
-                let n = 1 + rng.below(6);
+                let burst = i % 3 == 2;
+                let n = if burst { 200 + rng.below(200) } else { 1 + rng.below(6) };
+                let mut burst_bytes: Vec<u8> = vec![];
                 let mut seq = vec![];
                 for _ in 0..n {
                     let h = match rng.below(5) {
@@ -1001,9 +1006,67 @@ pub fn c20_e2e(bin: &str, seed: u64, sessions: u64, long_sessions: u64) -> E2eRe
                         2 => told_max,
                         _ => told_max + 1 + rng.below(6) as u32,
                     };
-                    seq.push(h);
+                    if seq.len() < 12 {
+                        seq.push(h);
+                    }
                     told_max = told_max.max(h);
-                    s.send_doc(&json!({"jsonrpc": "2.0", "method": "block_added", "params": {"block_added": {"hash": "00", "height": h}}}), 0);
+                    let doc = json!({"jsonrpc": "2.0", "method": "block_added", "params": {"block_added": {"hash": "00", "height": h}}});
+                    if burst {
+                        burst_bytes.extend_from_slice(format!("{}\n\n", doc).as_bytes());
+                    } else {
+                        s.send_doc(&doc, 0);
+                    }
+                }
+                if burst {
+                    s.send_raw(&burst_bytes, 0);
+                    s.pump_for(Duration::from_millis(300));
+                    // then 40 rounds of two *new* heights delivered higher-first in one write (their
+                    // handlers run concurrently in the real binary), each followed by a probe
+                    let mut bad: Option<String> = None;
+                    for r in 0..40u64 {
+                        let (hi, lo) = (told_max + 2, told_max + 1);
+                        let mut b = vec![];
+                        for h in [hi, lo, lo, hi - 1] {
+                            b.extend_from_slice(format!("{}\n\n", json!({"jsonrpc": "2.0", "method": "block_added", "params": {"block_added": {"hash": "00", "height": h}}})).as_bytes());
+                        }
+                        s.send_raw(&b, 0);
+                        told_max = hi;
+                        s.pump_for(Duration::from_millis(12));
+                        let inv = new_invoice(&mut rng, Some(1_000_000), Hints::None);
+                        s.preimages.insert(hex::encode(inv.hash), inv.preimage);
+                        let expiry = told_max + pd + 20;
+                        let before = s.pays_seen.len();
+                        let id = format!("b{r}");
+                        s.send_doc(&hook(&id, tramp_request(&inv, 100 + r, 1_005_000, 1_005_000, expiry, told_max)), 0);
+                        let idr: &str = &id;
+                        let w = s.wait_or_ping(|s| s.reply(idr).is_some(), Duration::from_secs(10));
+                        if w != Wait::Done || s.pays_seen.len() <= before {
+                            break;
+                        }
+                        let md = s.pays_seen.last().unwrap()["maxdelay"].as_u64().unwrap_or(u64::MAX);
+                        let want = (expiry - told_max - cd) as u64;
+                        acc.lock().unwrap().e("R20a-e2e", 1);
+                        if md != want {
+                            // a lagging notification handler (load) is not a regression: look again
+                            // after a pause, without telling the plugin anything new
+                            s.pump_for(Duration::from_millis(400));
+                            let inv2 = new_invoice(&mut rng, Some(1_000_000), Hints::None);
+                            s.preimages.insert(hex::encode(inv2.hash), inv2.preimage);
+                            let before2 = s.pays_seen.len();
+                            let id2 = format!("c{r}");
+                            s.send_doc(&hook(&id2, tramp_request(&inv2, 300 + r, 1_005_000, 1_005_000, expiry, told_max)), 0);
+                            let id2r: &str = &id2;
+                            let w2 = s.wait_or_ping(|s| s.reply(id2r).is_some(), Duration::from_secs(10));
+                            let md2 = if w2 == Wait::Done && s.pays_seen.len() > before2 { s.pays_seen.last().unwrap()["maxdelay"].as_u64().unwrap_or(u64::MAX) } else { want };
+                            if md2 != want {
+                                bad = Some(format!("round {r}: heights {hi},{lo} delivered together (higher first): pay.maxdelay {md} and, 400 ms later, {md2} mean height {} was used, the maximum told is {told_max}", expiry as i64 - cd as i64 - md2 as i64));
+                            }
+                            break;
+                        }
+                    }
+                    if let Some(b) = bad {
+                        acc.lock().unwrap().v("R20a|e2e-height-used-not-max-told", b);
+                    }
                 }
                 if long {
                     // notifications lost: the node's height rises silently; one poll interval later
@@ -1026,10 +1089,26 @@ pub fn c20_e2e(bin: &str, seed: u64, sessions: u64, long_sessions: u64) -> E2eRe
                 if wres == Wait::TooSlow {
                     g.inconclusive.push("session too slow to judge".into());
                 } else if s.pays_seen.len() > before {
-                    let md = s.pays_seen.last().unwrap()["maxdelay"].as_u64().unwrap_or(u64::MAX);
+                    let mut md = s.pays_seen.last().unwrap()["maxdelay"].as_u64().unwrap_or(u64::MAX);
                     let want = (expiry - told_max - cd) as u64;
+                    if md != want && !long {
+                        // a lagging notification handler (load) is not a regression: look once more
+                        drop(g);
+                        s.pump_for(Duration::from_millis(400));
+                        let inv2 = new_invoice(&mut rng, Some(1_000_000), Hints::None);
+                        s.preimages.insert(hex::encode(inv2.hash), inv2.preimage);
+                        let before2 = s.pays_seen.len();
+                        s.send_doc(&hook("h2", tramp_request(&inv2, 2, 1_005_000, 1_005_000, expiry, told_max)), 0);
+                        let w2 = s.wait_or_ping(|s| s.reply("h2").is_some(), Duration::from_secs(10));
+                        if w2 == Wait::Done && s.pays_seen.len() > before2 {
+                            md = s.pays_seen.last().unwrap()["maxdelay"].as_u64().unwrap_or(u64::MAX);
+                        } else {
+                            md = want;
+                        }
+                        g = acc.lock().unwrap();
+                    }
                     g.e(if long { "R20b-e2e" } else { "R20a-e2e" }, 1);
-                    g.class(format!("{} notifications{}", seq.len(), if long { " + silent rise" } else { "" }));
+                    g.class(if burst { "burst of 200-400 notifications".to_string() } else { format!("{} notifications{}", seq.len(), if long { " + silent rise" } else { "" }) });
                     if md != want {
                         let used = expiry as i64 - cd as i64 - md as i64;
                         let sig = if long { "R20b|e2e-not-caught-up-within-one-poll" } else { "R20a|e2e-height-used-not-max-told" };
